@@ -202,8 +202,19 @@ def _chain_cases(args):
             mps.optimize_config.nroots = nroots
             start = "R" if mps.is_left_canonical else "L"
             reseed_global(seed, "c08-run", ji)
-            with ChainRecorder(mps) as rec:
-                energies, res = gs.optimize_mps(mps, op, omega=omega)
+            try:
+                with ChainRecorder(mps) as rec:
+                    energies, res = gs.optimize_mps(mps, op, omega=omega)
+            except Exception:
+                # more roots requested than some local (sector-restricted) space holds: the optimiser then produces ragged
+                # energy lists and fails in its own convergence test.  Outside the scope of the case generator, not a case.
+                if nroots > 1 and any(len(np.atleast_1d(e)) < nroots for sw_ in rec.micro for e, _ in sw_):
+                    out["cases"].pop()
+                    continue
+                raise
+            if nroots > 1 and any(len(np.atleast_1d(e)) < nroots for sw_ in rec.micro for e, _ in sw_):
+                out["cases"].pop()
+                continue
             scale = max(1.0, float(np.abs(exact).max()))
             # ---- every energy the optimiser computed is an upper bound of the corresponding exact eigenvalue
             for isw, sweep in enumerate(rec.micro):
@@ -381,7 +392,11 @@ def _qc_cases(args):
             exact = np.linalg.eigvalsh(H[np.ix_(mask, mask)])
             scale = max(1.0, float(np.abs(exact).max()))
             reseed_global(seed, "c08qc-run", k, method, nroots, str(ofs), M)
-            mps = Mps.random(model, q, M, percent=1.0)
+            try:
+                mps = Mps.random(model, q, M, percent=1.0)
+            except FloatingPointError:
+                out["cases"].pop()        # Mps.random cannot populate this sector at this bond dimension: not a case
+                continue
             cc = lambda pct: [CompressConfig(CompressCriteria.fixed, max_bonddim=M, ofs=None if ofs is None else getattr(OFS, ofs)), pct]
             mps.optimize_config = OptimizeConfig(procedure=[cc(0.3), cc(0.1), cc(0), cc(0), cc(0)])
             mps.optimize_config.method, mps.optimize_config.nroots = method, nroots
@@ -422,7 +437,13 @@ def _qc_cases(args):
         except Exception as e:
             import traceback
             tb = traceback.format_exc(limit=4).splitlines()
-            out["viol"].append((f"C08:raises:qc:{type(e).__name__}", f"{type(e).__name__}: {e} | {' | '.join(x.strip() for x in tb[-4:-1])}", detail))
+            full = traceback.format_exc()
+            if isinstance(e, AssertionError) and "in swap_site" in full and "auxiliary_dummy_primary_ops" in full:
+                # the in-place operator swap assumes that re-factorising the two swapped sites keeps the number of operators on
+                # the outer bond; it asserts when the bond of the (already swapped) operator is not minimal
+                out["viol"].append(("C08:raises:qc:ofs:swap-site-bond-count", f"optimize_mps with on-the-fly swapping raised the bond-count assertion of symbolic_mpo.swap_site | {detail}", detail))
+            else:
+                out["viol"].append((f"C08:raises:qc:{type(e).__name__}", f"{type(e).__name__}: {e} | {' | '.join(x.strip() for x in tb[-4:-1])}", detail))
     return out
 
 
@@ -487,7 +508,11 @@ def _tree_cases(args):
             exact, Hs = _exact(H, mask)
             scale = max(1.0, float(np.abs(exact).max()))
             M0 = {"full": 64, "m2": 2, "m3p": 2}[proc]
-            t = trees.random_ttns(tcase, M0, (seed, "c08t", ji), qntot=q)
+            try:
+                t = trees.random_ttns(tcase, M0, (seed, "c08t", ji), qntot=q)
+            except FloatingPointError:
+                out["cases"].pop()        # TTNS.random cannot populate this sector at this bond dimension: not a case
+                continue
             procedure = {"full": [[64, 0.2], [64, 0], [64, 0]], "m2": [[2, 0.3], [2, 0], [2, 0]], "m3p": [[3, 0.5], [3, 0.5]]}[proc]
             t.optimize_config.algo = algo
             reseed_global(seed, "c08t-run", ji)
